@@ -96,9 +96,12 @@ class _Flatten:
         s = rshape(rng)
         r = len(s)
         u = rng.random()
-        if r >= 2 and u < 0.15:     # the Flatten(axis=1) branch
+        if u < 0.2:                 # the rank-1 Identity branch
+            return dict(shape=[rng.choice([0, 1, 2, 3, 5])], dtype=rdtype(rng), a=rng.choice([0, -1]), b=rng.choice([0, -1]))
+        u = rng.random()
+        if r >= 2 and u < 0.25:     # the Flatten(axis=1) branch
             return dict(shape=s, dtype=rdtype(rng), a=1, b=rng.choice([-1, r - 1]))
-        if r >= 2 and u < 0.30:     # the Flatten(axis=end+1) branch
+        if r >= 2 and u < 0.50:     # the Flatten(axis=end+1) branch
             return dict(shape=s, dtype=rdtype(rng), a=0, b=rng.choice([-2, r - 2]))
         return dict(shape=s, dtype=rdtype(rng), a=rdim(rng, r), b=rdim(rng, r))
 
